@@ -391,6 +391,7 @@ DB = "nostr_relay/storage/db.py"
 KV = "nostr_relay/storage/kv.py"
 
 MUTANTS = [
+    M("c20-write-retried", "nostr_relay/notifier.py", "        self.writer.write(event.id_bytes)\n", "        for _ in range(2):\n            self.writer.write(event.id_bytes)\n", "C20.once"),
     M("c20-wait-closed-before-unregister", "nostr_relay/notifier.py", "        del self.connections[addr]", "        await writer.drain()\n        del self.connections[addr]", "C20.unregister"),
     M("c20-server-read", NOT, "                data = await reader.readexactly(32)\n                self.log.debug(\n", "                data = await reader.read(32)\n                self.log.debug(\n", "C20.framing", canary=True),
     M("c20-client-read", NOT, "                data = await reader.readexactly(32)\n                event =", "                data = await reader.read(32)\n                event =", "C20.framing"),
